@@ -237,18 +237,41 @@ func oracleC18(c *JCase) (fail *ev.Failure) {
 		}
 	}
 	if c.DropRequired && (mt.Info.Runtime == "gv2" || mt.Info.Runtime == "gv1gen") {
-		// documented for Google V2 proto2 messages only
-		if req := firstRequired(mt.Desc); req != nil && dyn.Has(req) {
-			delete(parsed, req.JSONName())
-			delete(parsed, string(req.Name()))
-			partial, _ := json.Marshal(parsed)
-			dst := mt.New()
-			err := csproto.JSONUnmarshaler(dst, csproto.JSONAllowPartialMessages(c.AllowPartial)).UnmarshalJSON(partial)
-			if c.AllowPartial && err != nil {
-				return ev.Failf(jsonSig("allow-partial-not-honoured", mt), "AllowPartialMessages=true but %.200s is rejected: %v", partial, err)
+		// documented for Google V2 messages only; the required field may be the message's own or one of a
+		// (possibly imported proto2) child reached through singular message fields
+		if path := requiredPath(dyn, 0); path != nil {
+			obj := any(parsed)
+			for i, fd := range path {
+				mo, ok := obj.(map[string]any)
+				if !ok {
+					obj = nil
+					break
+				}
+				key := fd.JSONName()
+				if _, has := mo[key]; !has {
+					key = string(fd.Name())
+				}
+				if i == len(path)-1 {
+					delete(mo, key)
+				} else {
+					obj = mo[key]
+				}
 			}
-			if !c.AllowPartial && err == nil {
-				return ev.Failf(jsonSig("allow-partial-not-honoured", mt), "AllowPartialMessages=false but %.200s (required field %s missing) is accepted", partial, req.Name())
+			if obj != nil {
+				req := path[len(path)-1]
+				partial, _ := json.Marshal(parsed)
+				dst := mt.New()
+				err := csproto.JSONUnmarshaler(dst, csproto.JSONAllowPartialMessages(c.AllowPartial)).UnmarshalJSON(partial)
+				depth := "own"
+				if len(path) > 1 {
+					depth = "child"
+				}
+				if c.AllowPartial && err != nil {
+					return ev.Failf(jsonSig("allow-partial-not-honoured/"+depth, mt), "AllowPartialMessages=true but %.200s is rejected: %v", partial, err)
+				}
+				if !c.AllowPartial && err == nil {
+					return ev.Failf(jsonSig("allow-partial-not-honoured/"+depth, mt), "AllowPartialMessages=false but %.200s (required field %s missing) is accepted", partial, req.FullName())
+				}
 			}
 		}
 	}
@@ -259,6 +282,30 @@ func dynFields(m protoreflect.Message) []protoreflect.FieldDescriptor {
 	var out []protoreflect.FieldDescriptor
 	m.Range(func(fd protoreflect.FieldDescriptor, _ protoreflect.Value) bool { out = append(out, fd); return true })
 	return out
+}
+
+// requiredPath: the fields leading from m to a required scalar field that is set - m's own, or one in a
+// populated singular message field (depth <= 3).
+func requiredPath(m protoreflect.Message, depth int) []protoreflect.FieldDescriptor {
+	fs := m.Descriptor().Fields()
+	for i := 0; i < fs.Len(); i++ {
+		if fd := fs.Get(i); fd.Cardinality() == protoreflect.Required && m.Has(fd) {
+			return []protoreflect.FieldDescriptor{fd}
+		}
+	}
+	if depth >= 3 {
+		return nil
+	}
+	for i := 0; i < fs.Len(); i++ {
+		fd := fs.Get(i)
+		if fd.Message() == nil || fd.IsList() || fd.IsMap() || !m.Has(fd) {
+			continue
+		}
+		if sub := requiredPath(m.Get(fd).Message(), depth+1); sub != nil {
+			return append([]protoreflect.FieldDescriptor{fd}, sub...)
+		}
+	}
+	return nil
 }
 
 func firstRequired(md protoreflect.MessageDescriptor) protoreflect.FieldDescriptor {
@@ -322,7 +369,7 @@ func jsonTypes() []*MsgType {
 	return out
 }
 
-const ruleC18 = "case = (message type of the corpus for gogo / Google v1 (legacy) / Google v2, plain and fast-marshal; value incl. enums, 64-bit integers, bytes, maps, oneofs, well-known types; the 2^3 marshal option combinations; indent in {\"\", \" \", \"  \", \"\\t\", \" \\t\"}; JSON with/without an injected unknown key x AllowUnknownFields; JSON with/without a required field x AllowPartialMessages (Google v2); 1 in 3 right after a MarshalJSON call that the runtime refuses (out-of-range Timestamp / Duration, also as a later list element; required field missing in a child)); oracle: json.Valid, adapter round trip == original, the OWNING runtime's JSON decoder accepts the output and decodes the original, structural probes for every option, nil => (nil, nil), unmarshal into nil => error; non-trivial = message with >= 1 enum / 64-bit / bytes / map field set and >= 1 option set; distinct by case content"
+const ruleC18 = "case = (message type of the corpus for gogo / Google v1 (legacy) / Google v2, plain and fast-marshal; value incl. enums, 64-bit integers, bytes, maps, oneofs, well-known types; the 2^3 marshal option combinations; indent in {\"\", \" \", \"  \", \"\\t\", \" \\t\"}; JSON with/without an injected unknown key x AllowUnknownFields; JSON with/without a required field - the message's own or one of a child, incl. proto2 children of a proto3 message - x AllowPartialMessages (Google v2); 1 in 3 right after a MarshalJSON call that the runtime refuses (out-of-range Timestamp / Duration, also as a later list element; required field missing in a child)); oracle: json.Valid, adapter round trip == original, the OWNING runtime's JSON decoder accepts the output and decodes the original, structural probes for every option, nil => (nil, nil), unmarshal into nil => error; non-trivial = message with >= 1 enum / 64-bit / bytes / map field set and >= 1 option set; distinct by case content"
 
 func TestC18(t *testing.T) {
 	rec := ev.New("C18", ruleC18)
